@@ -17,6 +17,7 @@ dict_store that reads the file the command's process wrote when it closed its st
 what survives closing and re-opening the store, results AND locks (held / failed); the producers' locks and results
 must likewise be there when the store is opened again before the command.
 Search: the set equations of the property evaluated in Python on the same observations."""
+import builtins
 import contextlib
 import hashlib
 import os
@@ -81,7 +82,13 @@ SPELLINGS = {
 }
 SPELLING_NAMES = sorted(SPELLINGS)
 
-JUGFILE = '''from jug import TaskGenerator
+JUGFILE = '''import builtins
+from jug import TaskGenerator, CachedFunction, barrier
+from jug.task import iteratetask
+import jug.mapreduce
+
+# (harness) what ANOTHER process does to the store after this command opened it, while the jugfile is being loaded
+getattr(builtins, '_c10_between', lambda: None)()
 
 
 @TaskGenerator
@@ -94,11 +101,40 @@ def g(a, b):
     return a * b
 
 
+def h(x):
+    return x * 3
+
+
+def mp(x):
+    return x + 100
+
+
+@TaskGenerator
+def p(n):
+    return tuple(range(n))
+
+
 PARAMS = %(params)r
 PAIRS = %(pairs)r
-xs = dict((p, f(p)) for p in PARAMS)
+EXTRAS = %(extras)r
+xs = dict((p_, f(p_)) for p_ in PARAMS)
+if 'barrier' in EXTRAS:
+    barrier()
 ys = [g(xs[i], xs[j]) for (i, j) in PAIRS]
+# tasks that come into being indirectly
+if 'cached' in EXTRAS:
+    c = CachedFunction(h, 7)
+if 'map' in EXTRAS:
+    m = jug.mapreduce.map(mp, [1, 2, 3], map_step=2)
+if 'iterate' in EXTRAS:
+    a, b = iteratetask(p(2), 2)
+    z = g(a, b)
 '''
+ALL_EXTRAS = ('cached', 'map', 'iterate', 'barrier')
+EXTRA_LABELS = {'cached': [('cached',)], 'map': [('map', 0), ('map', 1)], 'iterate': [('p',), ('z',)], 'barrier': []}
+# After the repair of the stale-pack lost update (notes/proposed_fix_stale_pack.patch) set this to True: the full
+# C10 equations then also hold when another process packs / removes between the command's open and its cleanup.
+STALE_PACK_REREAD = os.environ.get('VERIF_C10_STALE_PACK_REREAD') == '1'
 
 ALL_PARAMS = [0, 1, 2, 3, 4]
 ALL_PAIRS = [(0, 1), (0, 2), (1, 2), (1, 3), (2, 3)]
@@ -159,25 +195,33 @@ def call_main(argv, cwd=None):
     return code, out.getvalue(), err.getvalue()
 
 
-def write_jugfile(path, params, pairs):
+def write_jugfile(path, params, pairs, extras=()):
     with open(path, 'w') as fh:
-        fh.write(JUGFILE % {'params': list(params), 'pairs': [tuple(p) for p in pairs]})
+        fh.write(JUGFILE % {'params': list(params), 'pairs': [tuple(p) for p in pairs], 'extras': list(extras)})
 
 
-def task_labels(params, pairs):
-    return [('f', p) for p in params] + [('g', i, j) for (i, j) in pairs]
+def task_labels(params, pairs, extras=()):
+    out = [('f', p) for p in params] + [('g', i, j) for (i, j) in pairs]
+    for e in ALL_EXTRAS:                       # creation order in the jugfile
+        if e in extras:
+            out += EXTRA_LABELS[e]
+    return out
 
 
 def universe(root):
     """hash of every task any generated jugfile can define, by loading the full jugfile once."""
     jf = os.path.join(root, MODNAME + '.py')
-    write_jugfile(jf, ALL_PARAMS, ALL_PAIRS)
+    write_jugfile(jf, ALL_PARAMS, ALL_PAIRS, ('cached', 'map', 'iterate'))
     with process_state():
         jugrun.fresh()
-        jug.jug.init(jf, dict_store())
+        _, space = jug.jug.init(jf, dict_store())
         hs = [hx(t.hash()) for t in jug.task.alltasks]
+        # the cached function's task, identified without relying on jug's own registration of it
+        ch = hx(jug.task.Task(space['h'], 7).hash())
+        if ch not in hs:
+            hs.insert(len(ALL_PARAMS) + len(ALL_PAIRS), ch)
     jugrun.fresh()
-    labels = task_labels(ALL_PARAMS, ALL_PAIRS)
+    labels = task_labels(ALL_PARAMS, ALL_PAIRS, ('cached', 'map', 'iterate'))
     if len(hs) != len(labels) or len(set(hs)) != len(hs):
         raise HarnessError('C10 harness: unexpected task list from the universe jugfile')
     return dict(zip(labels, hs))
@@ -201,18 +245,25 @@ def gen_spec(rng, H, backend, mode, driver):
     if rng.random() < 0.7:
         op, oq = gen_def(rng, allow_empty=False)
         old = {'params': op, 'pairs': [list(p) for p in oq]}
-    active = [H[l] for l in task_labels(cur_params, cur_pairs)]
+    extras = []
+    if rng.random() < 0.4:
+        extras = [e for e in ALL_EXTRAS if rng.random() < 0.45]
+    # another process works on the store between the command's open and its cleanup (stores that several processes share)
+    between = backend in ('file', 'filepack', 'redis') and rng.random() < 0.25
+    if between and 'barrier' in extras:
+        extras.remove('barrier')
+    active = [H[l] for l in task_labels(cur_params, cur_pairs, extras)]
     oldkeys = [H[l] for l in task_labels(old['params'], [tuple(p) for p in old['pairs']])] if old else []
     foreign = ['%040x' % rng.getrandbits(160) for _ in range(rng.choice([0, 0, 1, 1, 2]))]
-    exec_old = bool(old) and backend != 'dict' and rng.random() < 0.08
-    empty = rng.random() < 0.04
+    exec_old = bool(old) and backend != 'dict' and rng.random() < 0.08 and not between
+    empty = rng.random() < 0.04 and 'barrier' not in extras
     p1, p2, big = [], [], []
     present = []
     if not empty:
         pa = rng.choice([0.3, 0.6, 0.9])
         for k in active:
-            if rng.random() < pa:
-                present.append(k)
+            if rng.random() < pa or ('barrier' in extras and k in [H[('f', q)] for q in cur_params]):
+                present.append(k)          # a barrier lets the jugfile continue only when the first phase is complete
         for k in oldkeys:
             if k not in active and k not in present and (exec_old or rng.random() < 0.7):
                 present.append(k)
@@ -227,6 +278,8 @@ def gen_spec(rng, H, backend, mode, driver):
             continue
         if backend == 'filepack':
             r = rng.random()
+            if between and not STALE_PACK_REREAD and k not in active:
+                r = 0.5        # (until the stale-pack repair) nothing the command would prune is in the pack it opened
             if r < 0.45:
                 p1.append(k)
             elif r < 0.85:
@@ -249,10 +302,24 @@ def gen_spec(rng, H, backend, mode, driver):
     if backend in ('file', 'filepack'):
         spelling = rng.choice(SPELLING_NAMES)
         build_spelled = rng.random() < 0.5
+    bops = []
+    if between:
+        absent = [k for k in active if k not in present]
+        newkeys = [k for k in absent if rng.random() < 0.6] + ['%040x' % rng.getrandbits(160) for _ in range(rng.choice([0, 1]))]
+        if newkeys:
+            bops.append(['dump', newkeys])                     # `jug execute` of another worker
+        if backend in ('file', 'filepack') and rng.random() < 0.7:
+            bops.append(['pack'])                              # `jug pack`
+        gone = [k for k in present if rng.random() < 0.2]
+        if gone:
+            bops.append(['remove', gone])                      # `jug invalidate`
+        if rng.random() < 0.3:
+            rng.shuffle(bops)
     spec = {
         'backend': backend, 'mode': mode, 'driver': driver,
         'spelling': spelling, 'build_spelled': build_spelled,
-        'current': {'params': cur_params, 'pairs': [list(p) for p in cur_pairs]},
+        'current': {'params': cur_params, 'pairs': [list(p) for p in cur_pairs], 'extras': extras},
+        'between': bops,
         'old': old, 'exec_old': exec_old,
         'dump_before_pack': p1, 'dump_after_pack': p2, 'big': big,
         'locks': locks,
@@ -388,7 +455,7 @@ def _build(spec, env):
             env.srv.data[b'misc:%d' % i] = b'x'
     env.end_process(s1)              # the producer exits: dict_store:FILE is written now
     cur = spec['current']
-    write_jugfile(env.jugfile, cur['params'], [tuple(p) for p in cur['pairs']])
+    write_jugfile(env.jugfile, cur['params'], [tuple(p) for p in cur['pairs']], cur.get('extras', ()))
 
 
 def scan_file_store(jd):
@@ -511,7 +578,34 @@ def run_cleanup(spec, env):
         raise ValueError(driver)
     tasks = list(jug.task.alltasks)
     used = jug.task.Task.store
-    return [hx(t.hash()) for t in tasks], used, tasks, msg
+    # hashing a task that holds a function of the jugfile pickles it by reference: the jugfile's module has to be
+    # importable again (the command's process state was undone above)
+    import types
+    def jugfile_functions(t):
+        todo = [t.f] + list(t.args) + list(t.kwargs.values())
+        while todo:
+            x = todo.pop()
+            if isinstance(x, (list, tuple)):
+                todo.extend(x)
+            elif getattr(x, '__module__', None) == MODNAME and hasattr(x, '__globals__'):
+                yield x
+            elif getattr(getattr(x, 'f', None), '__module__', None) == MODNAME:      # a TaskGenerator
+                yield x.f
+    glob = next((fn.__globals__ for t in tasks for fn in jugfile_functions(t)), None)
+    had = sys.modules.get(MODNAME)
+    if glob is not None:
+        m = types.ModuleType(MODNAME)
+        m.__dict__.update(glob)
+        sys.modules[MODNAME] = m
+    try:
+        hashes = [hx(t.hash()) for t in tasks]
+    finally:
+        if glob is not None:
+            if had is None:
+                sys.modules.pop(MODNAME, None)
+            else:
+                sys.modules[MODNAME] = had
+    return hashes, used, tasks, msg
 
 
 # ---------------------------------------------------------------------------- oracle (Python, independent of Coq)
@@ -519,20 +613,39 @@ def oracle(spec, active, before, after):
     """The set equations of C10 on the API-level observations.  Returns [(clause, expected, observed)]."""
     mode, backend = spec['mode'], spec['backend']
     bad = []
-    A = set(active)
+    A = set(active)                   # the tasks the jugfile defines (known from the generator)
+    if 'active_cmd' in after and list(after['active_cmd']) != list(active):
+        bad.append(('tasks the command takes as defined by the jugfile (task.alltasks)', list(active), list(after['active_cmd'])))
     # what the producers left must be what a new store object sees before the command: the locks they hold / marked
     # failed (and the results they stored) survive closing the store and opening it again
+    b0 = before.get('opened', before)          # the store when the command opened it
+    conc = 'opened' in before                  # another process worked on it between that and the cleanup: `before` is
+    #                                            the store at cleanup time
     want_locks = sorted([k, bool(f)] for k, f in spec['locks'])
-    if sorted(before['locks']) != want_locks:
-        bad.append(('locks held when the store was closed are there when it is opened again', want_locks, sorted(before['locks'])))
+    if sorted(b0['locks']) != want_locks:
+        bad.append(('locks held when the store was closed are there when it is opened again', want_locks, sorted(b0['locks'])))
     stored = set(spec['dump_before_pack']) | set(spec['dump_after_pack'])
-    if not stored <= set(before['list']):
-        bad.append(('results stored before the store was closed are there when it is opened again', sorted(stored), before['list']))
-    rb, ra = set(before['list']), set(after['list'])
+    if not stored <= set(b0['list']):
+        bad.append(('results stored before the store was closed are there when it is opened again', sorted(stored), b0['list']))
+    created = set(after.get('created', []))    # results that LOADING the jugfile stores (CachedFunction)
+    rb, ra = set(before['list']) | created, set(after['list'])
     exp_r = (rb & A) if mode in ('default', 'keep_locks') else rb
-    if ra != exp_r:
+    weak = conc and backend in ('file', 'filepack') and not STALE_PACK_REREAD
+    if weak:
+        # the command's copy of the pack is older than the pack: what must hold nevertheless
+        if mode in ('default', 'keep_locks'):
+            for k in sorted((rb & A) - ra):
+                bad.append(('needed result removed (another process packed / stored / removed before the cleanup)', k, 'gone'))
+            if not ra <= rb:
+                bad.append(('results that were not there at cleanup time', sorted(rb), sorted(ra)))
+            if not (ra - A) <= set(before.get('pack') or []):
+                bad.append(('stale results survive only inside a pack the command never read', sorted(before.get('pack') or []), sorted(ra - A)))
+        elif ra != exp_r:
+            bad.append(('results', sorted(exp_r), sorted(ra)))
+        exp_r = ra
+    elif ra != exp_r:
         bad.append(('results', sorted(exp_r), sorted(ra)))
-    if 'list_inproc' in after and set(after['list_inproc']) != exp_r:
+    if not weak and 'list_inproc' in after and set(after['list_inproc']) != exp_r:
         bad.append(('results (view of the store object the command used)', sorted(exp_r), after['list_inproc']))
     lb = dict((k, f) for k, f in before['locks'])
     la = dict((k, f) for k, f in after['locks'])
@@ -562,11 +675,19 @@ def oracle(spec, active, before, after):
     if mode in ('locks_only', 'failed_only'):
         if backend in ('file', 'filepack'):
             for fld in ('files', 'pack', 'temps'):
-                if before[fld] != after[fld]:
-                    bad.append(('lock-only mode changed %s' % fld, before[fld], after[fld]))
+                # (a CachedFunction whose result another process has just packed is stored again, next to the pack, by a
+                # command whose copy of the pack is older)
+                again = created | (set(after.get('cached_key', [])) & set(before.get('pack') or []) if conc else set())
+                av = [x for x in after[fld] if x not in again] if fld == 'files' else after[fld]
+                bv = [x for x in before[fld] if x not in again] if fld == 'files' else before[fld]
+                if conc and fld == 'pack' and after.get('cached_key'):
+                    av = [x for x in (av or []) if x not in after['cached_key']]
+                    bv = [x for x in (bv or []) if x not in after['cached_key']]
+                if bv != av:
+                    bad.append(('lock-only mode changed %s' % fld, bv, av))
         else:
             nb = [e for e in before['raw'] if e[0] != 'lock']
-            na = [e for e in after['raw'] if e[0] != 'lock']
+            na = [e for e in after['raw'] if e[0] != 'lock' and not (e[0] == 'result' and e[1] in created)]
             if nb != na:
                 bad.append(('lock-only mode changed non-lock keys', nb, na))
     return bad
@@ -598,6 +719,18 @@ def intern(active, before, after):
 
 def plist(xs):
     return '[' + ';'.join(str(x) for x in xs) + ']'
+
+
+def with_created(backend, o, created):
+    if not created:
+        return o
+    o = dict(o)
+    o['list'] = sorted(set(o['list']) | set(created))
+    if backend in ('file', 'filepack'):
+        o['files'] = sorted(set(o['files']) | set(created))
+    else:
+        o['raw'] = sorted(o['raw'] + [['result', k] for k in created])
+    return o
 
 
 def state_lit(backend, o, ids):
@@ -673,14 +806,37 @@ def run_spec(spec, H, root):
     """build -> observe -> real command -> observe.  Returns (active, before, after, msg)."""
     env = build(spec, root)
     cur = spec['current']
-    expect_active = [H[l] for l in task_labels(cur['params'], [tuple(p) for p in cur['pairs']])]
+    expect_active = [H[l] for l in task_labels(cur['params'], [tuple(p) for p in cur['pairs']], cur.get('extras', ()))]
     keys = set(expect_active)
+    for op in spec.get('between', []):
+        if op[0] in ('dump', 'remove'):
+            keys.update(op[1])
     if spec['old']:
         keys.update(H[l] for l in task_labels(spec['old']['params'], [tuple(p) for p in spec['old']['pairs']]))
     keys.update(spec['dump_before_pack'])
     keys.update(spec['dump_after_pack'])
     keys.update(k for k, _ in spec['locks'])
     before = observe(env, keys)
+    state = {}
+
+    def between():
+        """another process: the command has opened its store and is loading the jugfile"""
+        builtins._c10_between = lambda: None
+        B = env.open()
+        big = set(spec['big'])
+        for op in spec['between']:
+            if op[0] == 'dump':
+                for k in op[1]:
+                    B.dump(value_for(k, big), bx(k))
+            elif op[0] == 'pack':
+                B.update_pack()
+            elif op[0] == 'remove':
+                for k in op[1]:
+                    B.remove(bx(k))
+        env.discard(B)
+        state['at_cleanup'] = observe(env, keys)
+    if spec.get('between'):
+        builtins._c10_between = between
     try:
         active, used, tasks, msg = run_cleanup(spec, env)
     except HarnessError:
@@ -688,11 +844,25 @@ def run_spec(spec, H, root):
     except Exception as e:                     # the command under test raised: a finding, not a harness failure
         jugrun.fresh()
         raise CommandCrashed('%s: %s' % (type(e).__name__, str(e)[:200]), before)
-    if active != expect_active:
-        raise HarnessError('C10 harness: the command loaded tasks %s, expected %s' % (active, expect_active))
+    finally:
+        if hasattr(builtins, '_c10_between'):
+            del builtins._c10_between
+    if 'at_cleanup' in state:
+        state['at_cleanup']['opened'] = before
+        before = state['at_cleanup']
     after = observe(env, keys, inproc=used, tasks=tasks)
+    if 'opened' in before:
+        # the command's own store object may still hold what it read when it opened the store (a lock-only mode has
+        # no reason to look again): only new store objects are asked when another process was at work
+        after.pop('list_inproc', None)
+    after['active_cmd'] = active
+    if 'cached' in cur.get('extras', ()):
+        after['cached_key'] = [H[('cached',)]]
+        if H[('cached',)] not in before['list'] and ('opened' not in before or H[('cached',)] in after['list']):
+            # (with another process at work the command's older view decides whether the function runs again)
+            after['created'] = [H[('cached',)]]
     jugrun.fresh()
-    return active, before, after, msg
+    return expect_active, before, after, msg
 
 
 def run(ck):
@@ -730,11 +900,22 @@ def run(ck):
                 finally:
                     shutil.rmtree(croot, ignore_errors=True)
                 ids = intern(active, before, after)
-                lit = case_lit(spec, active, before, after, ids)
-                cases.append(lit)
                 meta = {'spec': spec, 'active': active, 'before': before, 'after': after, 'message': msg,
                         'interning': ids}
-                metas.append(meta)
+                conc = 'opened' in before
+                if conc and backend in ('file', 'filepack') and (not STALE_PACK_REREAD or 'cached' in spec['current'].get('extras', [])):
+                    # the model reads the pack when the command runs; the real command read it when it opened the store
+                    ck.count('another process between open and cleanup: search only (stale copy of the pack)')
+                else:
+                    # the model is told the store as it is once the jugfile is loaded (CachedFunction stores at load time)
+                    cases.append(case_lit(spec, active, with_created(backend, before, after.get('created', [])), after, ids))
+                    metas.append(meta)
+                if conc:
+                    ck.count('another process between open and cleanup:%s' % '+'.join(op[0] for op in spec['between']))
+                for e in spec['current'].get('extras', []):
+                    ck.count('jugfile with indirectly created tasks:%s' % e)
+                if after.get('created'):
+                    ck.count('CachedFunction result stored while the command loads the jugfile')
                 for clause, exp, obs in oracle(spec, active, before, after):
                     ck.violation({'kind': 'impl-violation',
                                   'what': 'cleanup %s on %s: %s' % (mode, backend, clause.split('(')[0].strip()),
